@@ -151,6 +151,14 @@ class AccessExec(Exec):
         for acc in ACCESSORS:
             if acc != cfg['first']:
                 obs.append(self.apply(w, acc, mod))
+        if cfg.get('restart'):
+            # an erroneous second start() is refused and must leave the recorded outcome as it was
+            try:
+                w.start()
+                again = 'started twice'
+            except (RuntimeError, AssertionError) as e:
+                again = type(e).__name__
+            obs.append(('restart', again, [self.apply(w, acc, mod) for acc in ACCESSORS]))
         code = getattr(w, 'exitcode', None) if cfg['what'] == 'process' else None
         if cfg['what'] == 'process':
             self.killed = code is not None and code < 0
@@ -164,7 +172,7 @@ class AccessExec(Exec):
             return r.error[0]
         if r.exc is not None:
             return 'exc:' + type(r.exc).__name__
-        return repr((r.value[1], [o[:3] for o in r.value[0]]))[:300]
+        return repr((r.value[1], [o[:3] if o[0] != 'restart' else (o[0], o[1], [x[:3] for x in o[2]]) for o in r.value[0]]))[:400]
 
     def verdict(self, r):
         v = default_verdict(r)
@@ -175,6 +183,13 @@ class AccessExec(Exec):
         value, etype, eargs, excode = EXPECT[cfg['kind']]
         killed = code is not None and code < 0
         by = {o[0]: o for o in obs}
+        if 'restart' in by:
+            _, again, obs2 = by.pop('restart')
+            obs = [o for o in obs if o[0] != 'restart']
+            if again == 'started twice':
+                return ('second-start-accepted', 'start() on a finished worker did not raise')
+            if sorted(repr(o[:3]) for o in obs2) != sorted(repr(o[:3]) for o in obs):
+                return ('outcome-changed-by-refused-restart', f'before {obs}; after the refused second start() {obs2}')
         if cfg['what'] == 'process':
             if killed:
                 if code not in (-9, -15):
@@ -240,7 +255,10 @@ class ThreadH(Harness):
 
     def configs(self, tier):
         d = 2 if tier == 'quick' else 3
-        return [dict(what='thread', kind=k, first=a, bound=d, cap=50000) for k in KINDS for a in ACCESSORS]
+        out = [dict(what='thread', kind=k, first=a, bound=d, cap=50000) for k in KINDS for a in ACCESSORS]
+        out += [dict(what='thread', kind=k, first=a, restart=True, bound=d, cap=50000)
+                for k in ('obj', 'value_error', 'exit1') for a in ('join', 'wait')]
+        return out
 
     def new(self, cfg):
         return AccessExec(cfg)
@@ -271,6 +289,8 @@ class ProcessH(Harness):
             for k in ('obj', 'value_error', 'exit1'):
                 for a in ACCESSORS:
                     out.append(dict(what='process', kind=k, first=a, crash=sig, bound=1 if quick and a in ('join', 'wait') else (0 if quick else 1), cap=100000))
+        for k in ('obj', 'value_error'):
+            out.append(dict(what='process', kind=k, first='join', restart=True, bound=1 if quick else 2, cap=100000))
         # terminate() by the parent right after start(), wherever the child happens to be
         for k in ('obj', 'value_error', 'none'):
             for a in ('join', 'result', 'wait', 'as_completed'):
